@@ -1,4 +1,5 @@
 use std::hash::{Hasher, Hash};
+use std::convert::TryFrom;
 use std::collections::{BTreeSet};
 use std::iter::FromIterator;
 use std::ops::Add;
@@ -97,16 +98,12 @@ impl<'a, T: ColumnProvider> ExpressionExecutionEngine<'a, T> {
                     &right_value,
                     || Some(Value::Null),
                     |x, y| {
-                        Some(
-                            Value::Int(
-                                match operator {
-                                    ArithmeticOperator::Add => x + y,
-                                    ArithmeticOperator::Subtract => x - y,
-                                    ArithmeticOperator::Multiply => x * y,
-                                    ArithmeticOperator::Divide => x / y
-                                }
-                            )
-                        )
+                        match operator {
+                            ArithmeticOperator::Add => x.checked_add(y),
+                            ArithmeticOperator::Subtract => x.checked_sub(y),
+                            ArithmeticOperator::Multiply => x.checked_mul(y),
+                            ArithmeticOperator::Divide => x.checked_div(y)
+                        }.map(|value| Value::Int(value))
                     },
                     |x, y| {
                         Some(
@@ -148,7 +145,7 @@ impl<'a, T: ColumnProvider> ExpressionExecutionEngine<'a, T> {
                     || Some(Value::Null),
                     |x| {
                         match operator {
-                            UnaryArithmeticOperator::Negative => Some(-x),
+                            UnaryArithmeticOperator::Negative => x.checked_neg(),
                             UnaryArithmeticOperator::Invert => None
                         }
                     },
@@ -236,7 +233,7 @@ impl<'a, T: ColumnProvider> ExpressionExecutionEngine<'a, T> {
 
                         arg.map(
                             || Some(Value::Null),
-                            |x| Some(x.abs()),
+                            |x| x.checked_abs(),
                             |x| Some(x.abs()),
                             |_| None,
                             |_| None,
@@ -267,8 +264,8 @@ impl<'a, T: ColumnProvider> ExpressionExecutionEngine<'a, T> {
                             &arg1,
                             || Some(Value::Null),
                             |x, y| {
-                                if y >= 0 {
-                                    Some(Value::Int(x.pow(y as u32)))
+                                if y >= 0 && y <= u32::MAX as i64 {
+                                    x.checked_pow(y as u32).map(|value| Value::Int(value))
                                 } else {
                                     None
                                 }
@@ -523,7 +520,12 @@ impl<'a, T: ColumnProvider> ExpressionExecutionEngine<'a, T> {
                         let index = self.evaluate(index)?;
                         match index {
                             Value::Int(value) => {
-                                Ok(values.get((value - 1) as usize).cloned().unwrap_or(Value::Null))
+                                Ok(
+                                    value.checked_sub(1)
+                                        .and_then(|index| usize::try_from(index).ok())
+                                        .and_then(|index| values.get(index).cloned())
+                                        .unwrap_or(Value::Null)
+                                )
                             }
                             _ => {
                                 Err(EvaluationError::ExpectedArrayIndexingToBeInt(index.value_type()))
